@@ -104,3 +104,11 @@ Theorem c04_script_exact_on_core_with_unions : forall noise e ss,
   script_pairs e false [] (map (r_stmt noise) ss) = spec_script_pairs (e_cfg e) ss.
 Proof. exact script_exact_on_core_union. Qed.
 Print Assumptions c04_script_exact_on_core_with_unions.
+
+(** ... and to scripts that also contain plain SELECTs and statements that move no data (Tree/ScriptExactExt.v) *)
+From SV Require Import Tree.ScriptExactExt.
+Theorem c04_script_exact_on_core_ext : forall noise e ss,
+  noise_ok noise = true -> env_ok e = true -> Forall core_stmt_ext ss ->
+  script_pairs e false [] (map (r_stmt noise) ss) = spec_script_pairs (e_cfg e) ss.
+Proof. exact script_exact_on_core_ext. Qed.
+Print Assumptions c04_script_exact_on_core_ext.
